@@ -244,7 +244,13 @@ def check(prog, run):
                                   "str() of the error does not show the decoded sense key and ASC/ASCQ for %s" % c, file, strf.node.lineno, strf.qualname)
     # literal dictionaries: no duplicate keys
     ndict = 0
-    for n in ast.walk(mod.tree):
+    # (the sense module and the modules of the library it takes its tables and texts from)
+    dict_mods = [mod] + [m for m in prog.modules.values() if m is not mod and getattr(m, "tree", None) is not None
+                         and (any(v is mv for v in mod.env.values() for mv in m.env.values() if isinstance(mv, dict) and len(mv) >= 8)
+                              or any(isinstance(b, ClassVal) and b.module is m for b in cls.mro()))]
+    for dmod in dict_mods:
+      file_d = prog.rel(dmod)
+      for n in ast.walk(dmod.tree):
         if isinstance(n, ast.Dict):
             keys = [k.value for k in n.keys if isinstance(k, ast.Constant)]
             if len(keys) < 8:
@@ -253,7 +259,7 @@ def check(prog, run):
             dup = sorted(set(k for k in keys if keys.count(k) > 1), key=repr)
             if dup:
                 run.violation("no-duplicate-keys", "dict literal at first key %r" % (keys[0],),
-                              "duplicate keys %s: the later entry silently replaces the earlier" % (dup[:5],), file, n.lineno)
+                              "duplicate keys %s: the later entry silently replaces the earlier" % (dup[:5],), file_d, n.lineno)
             else:
                 run.ok("no-duplicate-keys", "dict literal with %d keys starting %r" % (len(keys), keys[0]))
     run.count("paths", npaths)
